@@ -145,6 +145,11 @@ impl<W: 'static, R: 'static, T: 'static> XSet<W, R, T> {
 }
 
 impl<W: 'static, R: 'static, T: 'static> XNativeValue for XSet<W, R, T> {
+    #[cfg(xray_verif)]
+    fn verif_payload(&self) -> usize {
+        self.inner.values().map(|b| b.len()).sum::<usize>() * size_of::<usize>()
+    }
+
     fn dyn_size(&self) -> usize {
         (self.len + self.inner.len() + 2) * size_of::<Rc<ManagedXValue<W, R, T>>>()
     }
@@ -420,4 +425,17 @@ pub(crate) fn add_set_dyn_new<W, R, T>(
             ),
         ))
     })
+}
+
+#[cfg(xray_verif)]
+impl<W, R, T> XSet<W, R, T> {
+    pub(crate) fn verif_len(&self) -> usize {
+        self.len
+    }
+
+    pub(crate) fn verif_table(&self) -> Vec<(u64, &SetBucket<W, R, T>)> {
+        let mut ret: Vec<_> = self.inner.iter().map(|(h, b)| (*h, b)).collect();
+        ret.sort_by_key(|(h, _)| *h);
+        ret
+    }
 }
